@@ -69,13 +69,13 @@ theorem levels_sound {C : Cfg σ κ ν} {cmp : κ → κ → Ordering} {X : List
     have hok : (C 0).chunkOk X = true := (C 0).feedOk_of_noOvf X _ (H.no_overflow 0)
     have hnonempty : ∀ l ∈ (C 0).chunk X, l ≠ [] := (C 0).chunk_nonempty' X hok
     have hsflat : Sorted cmp (((C 0).chunk X).flatten : List (κ × ν)) := by rw [hflat]; exact H.sorted
-    have hold := leafRegions_old cmp ((C 0).chunk X) es false
-    have hclean := leafRegions_clean H.cmp_ok ((C 0).chunk X) es false
+    have hold := leafRegions_old cmp ((C 0).chunk X) es false true
+    have hclean := leafRegions_clean H.cmp_ok ((C 0).chunk X) es false true
       (fun l hl => sorted_of_mem_flatten _ l hl hsflat) H.edits_sorted
-    have hcontent := leafRegions_content H.cmp_ok ((C 0).chunk X) es false hne hnonempty hsflat
-    have hcanon : (C 0).Canon ((leafRegions cmp ((C 0).chunk X) es false).map (·.old)) :=
+    have hcontent := leafRegions_content H.cmp_ok ((C 0).chunk X) es false true hne hnonempty hsflat
+    have hcanon : (C 0).Canon ((leafRegions cmp ((C 0).chunk X) es false true).map (·.old)) :=
       (congrArg (fun l => (C 0).Canon l) hold).mpr (lvl_canon C X 0 (H.no_overflow 0))
-    refine ⟨hold, sound_of_canon (C 0) _ hcanon hclean, ?_, leafRegions_ne_nil cmp _ es false hne⟩
+    refine ⟨hold, sound_of_canon (C 0) _ hcanon hclean, ?_, leafRegions_ne_nil cmp _ es false true hne⟩
     rw [hflat] at hcontent
     exact hcontent
   | n+1 => by
@@ -83,8 +83,8 @@ theorem levels_sound {C : Cfg σ κ ν} {cmp : κ → κ → Ordering} {X : List
     -- the outputs of level n
     have hch : children n (lvl C (n+1) X) = lvl C n X := children_lvl C n X
     have hregs : regionsAt C cmp (n+1) (lvl C (n+1) X) es
-        = regionsUp n (lvl C (n+1) X) ((C n).incr (C n).fresh (regionsAt C cmp n (lvl C n X) es)) := by
-      show regionsUp n (lvl C (n+1) X) ((C n).incr (C n).fresh (regionsAt C cmp n (children n (lvl C (n+1) X)) es)) = _
+        = regionsUp n (lvl C (n+1) X) ((C n).incr (C n).fresh (regionsAt C cmp n (lvl C n X) es)) true := by
+      show regionsUp n (lvl C (n+1) X) ((C n).incr (C n).fresh (regionsAt C cmp n (children n (lvl C (n+1) X)) es)) true = _
       rw [hch]
     rw [hregs]
     generalize hrs : regionsAt C cmp n (lvl C n X) es = rs at hold hsound hnew hne
@@ -101,12 +101,12 @@ theorem levels_sound {C : Cfg σ κ ν} {cmp : κ → κ → Ordering} {X : List
     have hnds : lvl C (n+1) X ≠ [] := by
       intro h; rw [h] at hflat
       exact hlvlne (List.map_eq_nil_iff.mp hflat.symm)
-    have hold' := regionsUp_old n (lvl C (n+1) X) ((C n).incr (C n).fresh rs)
+    have hold' := regionsUp_old n (lvl C (n+1) X) ((C n).incr (C n).fresh rs) true
     refine ⟨hold', ?_, ?_, ?_⟩
     · apply sound_of_canon
       · rw [hold']; exact lvl_canon C X (n+1) (H.no_overflow (n+1))
-      · exact regionsUp_clean n _ _ hlen
-    · rw [regionsUp_new n _ _ hlen, hflat, ← hold, List.map_map]
+      · exact regionsUp_clean n _ _ true hlen
+    · rw [regionsUp_new n _ _ true hlen, hflat, ← hold, List.map_map]
       have := incr_zip_summary n (C n) rs (C n).fresh
       simp only [Function.comp_def]
       rw [this, houts]
